@@ -137,7 +137,7 @@ func RoundTrip(stmt string) string {
 	return "same"
 }
 
-// canon: the normalisations of the structural comparison (two, both described here). The printer quotes an identifier that is
+// canon: the normalisations of the structural comparison (three, each described where it is applied). The printer quotes an identifier that is
 // a keyword; read back in the PostgreSQL dialect the identifier then carries the quote mark although the
 // original did not. An unquoted identifier that needs quoting is a lower-cased keyword (the tokenizer
 // lower-cases keywords), and for a name without upper-case letters `"name"` and `name` denote the same
@@ -158,6 +158,13 @@ func canon(t *sqlast.Tree) *sqlast.Tree {
 	if ty, v, ok := n.SQLVal(); ok && ty == c16.ValArg && !strings.HasPrefix(string(v), ":"+sqlparser.ValueMask) {
 		kids[1] = &sqlast.Tree{IsAtom: true, Atom: []byte("?")}
 	}
+	// third normalisation: ORDER BY NULL and ORDER BY rand() are printed without a direction on purpose
+	// (Order.Format); ordering by a constant or by a random value has no direction
+	if t.Kind == "Order" && len(kids) == 2 && !kids[0].IsAtom {
+		if kids[0].Kind == "NullVal" || (kids[0].Kind == "FuncExpr" && funcNameIs(kids[0], "rand")) {
+			kids[1] = &sqlast.Tree{IsAtom: true, Atom: []byte("-")}
+		}
+	}
 	nameIdx, quoteIdx := -1, -1
 	switch t.Kind {
 	case "ColIdent": // val, lowered, quote, unquote
@@ -169,6 +176,14 @@ func canon(t *sqlast.Tree) *sqlast.Tree {
 		kids[quoteIdx] = &sqlast.Tree{IsAtom: true, Atom: []byte("0")}
 	}
 	return n
+}
+
+// funcNameIs: FuncExpr{Qualifier, Name ColIdent{val,…}, Distinct, Exprs}
+func funcNameIs(f *sqlast.Tree, name string) bool {
+	if len(f.Kids) < 2 || f.Kids[1].IsAtom || len(f.Kids[1].Kids) < 1 || !f.Kids[1].Kids[0].IsAtom {
+		return false
+	}
+	return strings.EqualFold(string(f.Kids[1].Kids[0].Atom), name)
 }
 
 func plainLower(b []byte) bool {
